@@ -59,7 +59,8 @@ try:
             failed = subprocess.run(f"grep -E '^FAILED' {log} | head -5", shell=True, capture_output=True, text=True).stdout.strip()
             res["suite_rc"], res["suite_summary"], res["suite_failed"] = rc, tail, failed
         # the check
-        env = {"PYNENC_REPO": mut, "PYTHONPATH": f"{VERIF}:{mut}", "PYNENC_VERIF": "1", "PYTHONDONTWRITEBYTECODE": "1"}
+        env = {"PYNENC_REPO": mut, "PYTHONPATH": f"{VERIF}:{mut}", "PYNENC_VERIF": "1", "PYTHONDONTWRITEBYTECODE": "1",
+               "VERIF_EVIDENCE_DIR": os.path.join(mut, ".verif-evidence"), "VERIF_REPLAY_DIR": os.path.join(src, "replays")}
         t0 = time.time()
         rc, out = sh(["/venv/bin/python", "-m", "harness.run", check_prop, "--tier", tier], cwd=VERIF, env=env, timeout=3000)
         res["check_rc"], res["check_wall_s"] = rc, round(time.time() - t0, 1)
